@@ -125,7 +125,7 @@ class FakeDatetimeModule(object):
         self.timedelta = real.timedelta
 
 
-def modulated(chk, rng, mru, length, target):
+def modulated(chk, rng, mru, length, target, slow=False):
     ''' The adaptive segment-size controller is ON: whatever it computes, no
     segment may exceed the peer's segment MRU (checked on the wire). '''
     import tcpcl.session
@@ -144,7 +144,8 @@ def modulated(chk, rng, mru, length, target):
             if not ena:
                 break
             pick = ena[0] if rng.random() < 0.5 else rng.choice(ena)
-            runner.apply(('advance', rng.choice([1, 5, 20])))
+            # fast ACKs let the controller grow the segment size, slow ACKs make it shrink (towards its floor)
+            runner.apply(('advance', rng.choice([400, 1500, 3000]) if slow else rng.choice([1, 5, 20])))
             if pick[0] == 'txpump':
                 runner.apply(('txpump', pick[1], pick[2], 1 << 30))
             elif pick[0] == 'rxpump':
@@ -197,6 +198,7 @@ def build_all(chk):
     for (mru, length) in ([(1000, 30000), (500, 9000), (20000, 90000), (10239, 60000)] if chk.quick()
                           else [(m, n) for m in (1, 100, 1000, 5000, 10239, 10240, 20000) for n in (3000, 30000, 90000)]):
         out.append(modulated(chk, rng, mru, length, rng.choice([1, 2])))
+        out.append(modulated(chk, rng, mru, length, 1, slow=True))
     pairs = [(0, 0), (0, 5), (1, 1), (1, 2), (2, 1), (5, 30), (30, 5), (65535, 2), (3, 3)]
     if not chk.quick():
         pairs += [(a, b) for a in (0, 1, 2, 7, 60, 65535) for b in (0, 1, 3, 60, 65535)]
